@@ -176,6 +176,10 @@ def _deliver(st, k, ev, site):
         os.kill(os.getpid(), signal.SIGKILL if action == 'sigkill' else signal.SIGTERM)
         time.sleep(5)
         return
+    if action == 'sleep':
+        # a preemption of the armed thread at this line: everybody else gets time to run
+        time.sleep(float(ev.get('seconds', 0.1)))
+        return
     if action == 'raise':
         _write(st, 'reached.%d' % len(st.landed), rec)
         raise RuntimeError('pwv injected failure at event %d' % k)
